@@ -100,3 +100,16 @@ package rawkv
 //@   at call(SendReq) assert request: arg_regionID == batch.RegionID && arg_req != nil && len(arg_req.Req.(*kvrpcpb.RawBatchPutRequest).Pairs) == len(batch.Keys) && arg_req.Req.(*kvrpcpb.RawBatchPutRequest).Ttls == batch.TTLs &&
 //@       forall j int :: 0 <= j && j < len(batch.Keys) ==> arg_req.Req.(*kvrpcpb.RawBatchPutRequest).Pairs[j].Key == batch.Keys[j] && arg_req.Req.(*kvrpcpb.RawBatchPutRequest).Pairs[j].Value == batch.Values[j]
 //@   at call(sendBatchPut) assert again: arg_keys == batch.Keys && arg_values == batch.Values && arg_ttls == batch.TTLs
+
+// One batch of a batch get / batch delete: the request carries exactly the batch's keys and goes to the batch's region; a
+// region error is paid with a back-off and exactly those keys are grouped again for the same command; a batch is answered
+// without error only with a response (for deletes: one without an error text).
+//@ func (c *Client) doBatchReq
+//@   prop C11
+//@   bytes: key
+//@   may-panic
+//@   requires cmdType == tikvrpc.CmdRawBatchGet || cmdType == tikvrpc.CmdRawBatchDelete
+//@   opaque-callee getColumnFamily GetRegionError
+//@   at call(SendReq) assert request: arg_regionID == batch.RegionID && arg_req != nil && arg_req.Type == cmdType &&
+//@       (cmdType == tikvrpc.CmdRawBatchGet ==> arg_req.Req.(*kvrpcpb.RawBatchGetRequest).Keys == batch.Keys) && (cmdType == tikvrpc.CmdRawBatchDelete ==> arg_req.Req.(*kvrpcpb.RawBatchDeleteRequest).Keys == batch.Keys)
+//@   at call(sendBatchReq) assert again: arg_keys == batch.Keys && arg_cmdType == cmdType
